@@ -117,12 +117,14 @@ impl Stats {
         for (k, v) in o.counters {
             *self.counters.entry(k).or_insert(0) += v;
         }
+        // (samples of the large deterministic sweeps are megabytes long: the evidence file keeps small ones only)
+        let small = |v: &Value| serde_json::to_string(v).map(|t| t.len() <= 20_000).unwrap_or(false);
         for s in o.samples {
-            if self.samples.len() < 5 {
+            if self.samples.len() < 5 && small(&s) {
                 self.samples.push(s);
             }
         }
-        if self.first_case.is_none() {
+        if self.first_case.is_none() && o.first_case.as_ref().is_some_and(small) {
             self.first_case = o.first_case;
         }
         for (k, v) in o.known_hits {
@@ -636,6 +638,10 @@ pub fn run_property(p: &dyn Property, tier: Tier, seed: u64) -> RunOutcome {
     coverage.insert("generated_cases".into(), json!(total.cases));
     coverage.insert("distinct_nontrivial".into(), json!(total.nontrivial.len()));
     coverage.insert("rule".into(), json!(p.rule()));
+    total.samples.retain(|v| serde_json::to_string(v).map(|t| t.len() <= 20_000).unwrap_or(false));
+    if total.first_case.as_ref().is_some_and(|v| serde_json::to_string(v).map(|t| t.len() > 20_000).unwrap_or(true)) {
+        total.first_case = None;
+    }
     if total.samples.is_empty() {
         if let Some(fc) = total.first_case.take() {
             total.samples.push(json!({"note": "no non-trivial sample recorded; first generated case", "case": fc}));
